@@ -920,7 +920,8 @@ class Repo:
         # a class that chooses its pack / unpack in its own constructor (and whose _compile does not):
         # the constructor is the installer, its paths give the strategies
         own_init = ci.methods.get('__init__')
-        if not _binds(comp) and _binds(own_init):
+        compile_binds = any(_binds(m_) for c_ in self.mro(ci) for n_, m_ in c_.methods.items() if n_.startswith('_compile') or n_.startswith('_bind') or n_.startswith('_install'))
+        if not _binds(comp) and not compile_binds and _binds(own_init):
             comp = own_init
         if comp is None:
             return [dict(guards=[], pack=base['pack'], unpack=base['unpack'], assigned=set())]
